@@ -227,7 +227,11 @@ func E(e *Expr) string {
 		if len(e.Args) > 0 {
 			s += "：" + args(e.Args)
 		}
-		return s + "）"
+		s += "）"
+		if e.Y != "" {
+			s += "，得到" + Name(e.Y)
+		}
+		return s
 	case "new":
 		s := "（新建" + Name(e.Cls)
 		if len(e.Args) > 0 {
